@@ -1168,6 +1168,9 @@ pub mod fs {
         pub any_hint: bool,
         pub n_fsync: usize,
         pub n_write: usize,
+        /// C04: before executing step number `probe_at` the hook (a reader-side probe) runs once
+        pub probe_at: usize,
+        pub probe: Option<fn()>,
     }
 
     pub static mut FS: FsState = FsState {
@@ -1198,6 +1201,8 @@ pub mod fs {
         any_hint: false,
         n_fsync: 0,
         n_write: 0,
+        probe_at: usize::MAX,
+        probe: None,
     };
 
     pub fn __fs() -> &'static mut FsState {
@@ -1248,6 +1253,15 @@ pub mod fs {
 
     /// One step.  Returns `Err` if this is the step chosen to fail.
     fn tick(kind: u8, slot: usize) -> io::Result<()> {
+        let fs = __fs();
+        let s = fs.steps;
+        if s == fs.probe_at {
+            // the probe's own file-system calls are steps too; run it once
+            fs.probe_at = usize::MAX;
+            if let Some(p) = fs.probe {
+                p();
+            }
+        }
         let fs = __fs();
         let s = fs.steps;
         fs.steps = s + 1;
